@@ -42,3 +42,11 @@ func specIsStackOverflow(x interface{}) bool {
 	_, ok := x.(*StackOverflowError)
 	return ok
 }
+
+// specInterruptPayload: the value an InterruptedError carries.
+func specInterruptPayload(x interface{}) interface{} {
+	if e, ok := x.(*InterruptedError); ok && e != nil {
+		return e.iface
+	}
+	return nil
+}
